@@ -83,8 +83,12 @@ class IntFlow:
             site = [c for c in fn.calls() if short(c.name) == m.group(1) and c.ordinal == int(m.group(2))]
             if site and site[0].refs and all(x in self.p.fns for x in site[0].refs):
                 out = set()
-                for x in site[0].refs:
-                    out |= self.fn_returns(self.p.fns[x], depth + 1)
+                # only closures that can produce the value: those returning an integer (possibly wrapped)
+                prod = [self.p.fns[x] for x in site[0].refs if "i32" in self.p.fns[x].locals[0]]
+                if not prod:
+                    return {("dyn", key)}
+                for g in prod:
+                    out |= self.fn_returns(g, depth + 1)
                 return out
             return {("dyn", key)}
         m = re.match(r"^try\(call:(.*)#\d+\)((?: as (?:Ok|Some|Continue)\.0)*)$", key)
